@@ -91,6 +91,7 @@ def load(out, case, rows, tmpdir, tag):
         g['instrument_spectrum'] = rows[:, 1]
         g['instrument_noise'] = rows[:, 2]
         g['instrument_wnwidth'] = rows[:, 3] * wn * wn / 10000.0
+        g['instrument_wlgrid'] = rows[:, 0].copy()          # a TauREx output holds the wavelength grid too
     if src == 'hdf5-class':
         return cut(out, 'load@hdf5-class', TaurexSpectrum, fn)
     return cut(out, 'load@hdf5-func', taurex_hdf5_to_observation, fn)
